@@ -93,8 +93,8 @@ func streamFacts(stream, file []byte, k int, rsrc, expName []byte) map[string]an
 		}
 	} else {
 		limit := len(stream) - 16
-		if limit > 8192 {
-			limit = 8192
+		if limit > 70000 { // the header is at most 24+16+72+name+2+65535+16 bytes
+			limit = 70000
 		}
 		for off := 40; off <= limit; off++ {
 			if string(stream[off:off+4]) == "DATA" && off+16+len(rem) <= len(stream) && bytes.Equal(stream[off+16:off+16+len(rem)], rem) {
@@ -276,7 +276,11 @@ func (k *worker) dlCase(run int, c map[string]any, big int) (map[string]any, err
 	commentLen := 0
 	if info {
 		if num(c, "cl") > 0 {
-			commentLen = pick(r, 1, 2, 17, 200)
+			// around io.ReadAll's first 512-byte buffer (header = 512 at comment 438 with a 1-char name; the name
+			// length shifts it), around io.Copy's 32 KiB buffer, and close to the 16-bit limit of the comment length
+			cls := []int{1, 17, 200, 379, 380, 381, 382, 383, 438, 439, 600, 4096, 32767, 32768, 32769, 61440,
+				382 - len(nc.Disk), 383 - len(nc.Disk)} // header = 512, 513
+			commentLen = cls[(run/3+int(seed()))%len(cls)]
 		}
 		comment := bytes.Repeat([]byte("c"), commentLen)
 		if err := os.WriteFile(filepath.Join(base, ".info_"+nc.Disk), infoFork([]byte(nc.Disk), comment), 0644); err != nil {
